@@ -17,6 +17,7 @@ import os
 
 import numpy as np
 
+from vf import bigcases
 from vf import core
 from vf import callforms
 from vf import errorpaths
@@ -359,3 +360,4 @@ def run(ctx):
     ctx.run_cases(case_halo, halo_cases(ctx.tier), sub="halo-padding", chunksize=1)
     ctx.run_cases(case_fine_column, fine_cases(ctx.tier), sub="fine column (thousands of layers), large background", chunksize=1)
     ctx.run_cases(case_int_column, [{"halo": h} for h in (0.0, 13.0, None)], sub="integer-typed column", chunksize=1)
+    bigcases.run(ctx, "C03")
